@@ -33,7 +33,11 @@ pub fn build_input(case: &GCase, bnf: &Bnf, earley: &Earley, ii: usize) -> Inp {
         1 => LayoutStyle::Ascii,
         _ => LayoutStyle::Minimal,
     };
-    let r = gen::render_tokens(&case.spec.terms, &toks, style, &mut c);
+    let r = if case.layout_mode > 0 {
+        gen::render_with_layout(&case.spec.terms, &toks, layout_kind_of(case.layout_mode), ii % 3 == 2, &mut c)
+    } else {
+        gen::render_tokens(&case.spec.terms, &toks, style, &mut c)
+    };
     let run = earley.run(&toks);
     // every 4th input gets a foreign character spliced in at a token boundary
     let foreign = if ii % 4 == 3 { Some((c.pick(toks.len() + 1), FOREIGN[c.pick(FOREIGN.len())])) } else { None };
@@ -208,7 +212,10 @@ impl Prop for C12 {
         json!({"grammar": case.spec.render(), "inputs": inputs})
     }
     fn check(&self, case: &GCase, st: &mut Stats) -> Outcome {
-        let spec = &case.spec;
+        let mut spec_l = case.spec.clone();
+        spec_l.layout = layout_kind_of(case.layout_mode);
+        let spec = &spec_l;
+        st.class(&format!("layout-mode-{}", case.layout_mode));
         let bnf = spec.bnf();
         if bnf.productive().iter().any(|p| !*p) {
             st.exclude("unproductive-nonterminal");
